@@ -80,8 +80,14 @@ where
         );
 
         let mid = Linear::calc_frac(p1, p2, x);
-        let mid_idx: usize =
-            cast(mid).unwrap_or_else(|| unimplemented!("failed to convert {mid:?} to usize"));
+        let mid_idx: usize = match cast(mid) {
+            Some(idx) => idx,
+            // The guess is only a starting point. For a finite query it is not a valid
+            // index when the span of the axis overflows (e.g. [-MAX, 0, MAX]):
+            // start the bisection from the first knot.
+            None if x.partial_cmp(&x).is_some() => 0,
+            None => unimplemented!("failed to convert {mid:?} to usize"),
+        };
 
         let mid_x = self[mid_idx];
 
